@@ -19,7 +19,7 @@ RULE = ('program = up to 10 primitives (left/right/forward/back/up/down/move_dis
 ASSUMPTIONS = ['virtual time: library processing takes zero time, so setpoint instants and integrals are exact (1e-9)',
                'programs keep the commanded altitude at or above the landing height (physical flights); for the MotionCommander '
                'an altitude of exactly 0 at land() is excluded (division by zero in down(0) needs measure-zero timing on a real clock)']
-REQUIRED = ['mon.hl_programs_dipping_below_the_origin', 'mon.mc_programs', 'mon.mc_exceptions_in_body', 'mon.mc_hover_setpoints', 'mon.mc_primitives_checked',
+REQUIRED = ['mon.mc_packets_read_by_a_radio_thread_after_they_were_queued', 'mon.hl_programs_dipping_below_the_origin', 'mon.mc_programs', 'mon.mc_exceptions_in_body', 'mon.mc_hover_setpoints', 'mon.mc_primitives_checked',
             'mon.hl_programs', 'mon.hl_goto_checked', 'mon.hl_exceptions_in_body', 'mon.quiet_after_landing',
             'mon.mc_consecutive_motions_with_same_vertical_velocity', 'mon.mc_statement_level_preemption_runs',
             'mon.mc_flights_ending_below_take_off_level', 'mon.mc_identical_velocity_commanded_again',
@@ -76,11 +76,14 @@ class WireCf:
     """Crazyflie stand-in with the real Commander and HighLevelCommander: what is logged is what a firmware of the given
     protocol version decodes from the packets that reach the link (legacy hover setpoints carry the yaw rate negated)."""
 
-    def __init__(self, ver):
+    def __init__(self, ver, queued=False):
         from cflib.crazyflie.commander import Commander
         from cflib.crazyflie.high_level_commander import HighLevelCommander
         self.log = []
         self.ver = ver
+        self.queued = queued
+        self._sched = None
+        self.on_air = 0
         self.undecodable = []
         self.platform = _Platform(ver)
         self.commander = Commander(self)
@@ -91,10 +94,31 @@ class WireCf:
         return getattr(self, 'connected_now', True)
 
     def send_packet(self, pk, expected_reply=(), resend=False, timeout=0.2):
-        import struct
         from vf import detsched as ds
         s = ds.CUR
         now = s.now if s else 0.0
+        if self.queued and s is not None:
+            # like the radio driver: the packet OBJECT waits in a queue and is read when the radio thread transmits it
+            if self._sched is not s:
+                import threading
+                self._sched = s
+                self._q = ds.Queue()
+                q = self._q
+
+                def radio():
+                    while True:
+                        t, p = q.get()
+                        self.on_air += 1
+                        self._decode(t, p)
+                th = threading.Thread(target=radio, name='wire-radio')
+                th.daemon = True
+                th.start()
+            self._q.put((now, pk))
+            return
+        self._decode(now, pk)
+
+    def _decode(self, now, pk):
+        import struct
         d = bytes(pk.data)
         ent = None
         try:
@@ -239,7 +263,7 @@ def run_mc(desc, ctx):
         tk_v = rnd.choice((0.2, 0.5, rnd.uniform(0.1, 1.0)))
         # every other program flies over the real Commander, against a firmware of some protocol version
         wire = wrnd.choice((None, None, None, None, None, 10, 9, 8, 7, 5))
-        cf = StubCf() if wire is None else WireCf(wire)
+        cf = StubCf() if wire is None else WireCf(wire, queued=wrnd.random() < 0.5)
         E9 = 1e-9 if wire is None else 2e-6
         E7 = 1e-7 if wire is None else 2e-5
         ob = {'segments': [], 'escaped': None, 'thread': None, 't_land_done': None}
@@ -410,6 +434,9 @@ def run_mc(desc, ctx):
             rp = {'seed': desc['seed'], 'kind': 'mc', 'n': it + 1}
             if wire is not None:
                 ctx.count('mon.mc_programs_over_the_real_commander')
+                if cf.queued:
+                    ctx.count('mon.mc_packets_read_by_a_radio_thread_after_they_were_queued', cf.on_air)
+                    cf.on_air = 0
                 if wire <= 8:
                     ctx.count('mon.mc_programs_over_the_real_commander_legacy_firmware')
                     ctx.count('mon.mc_legacy_setpoints_with_yaw_rate', sum(1 for c in cf.log if c[1] == 'cmd.send_hover_setpoint' and c[2][2] != 0.0))
@@ -617,7 +644,7 @@ def run_hl(desc, ctx):
                            ('go_to', (drnd.uniform(-2, 2), drnd.uniform(-2, 2), back), None)]
             # (an exception in the body is raised before the dip or not at all: boom_at was drawn for the program without it)
             ctx.count('mon.hl_programs_dipping_below_the_origin')
-        cf = StubCf() if wire is None else WireCf(wire)
+        cf = StubCf() if wire is None else WireCf(wire, queued=wrnd.random() < 0.5)
         E9 = 1e-9 if wire is None else 2e-6
         ob = {'exp': [], 'pos': None, 'escaped': None}
 
